@@ -32,6 +32,9 @@ func VerifC02History() {
 			ref.del(key)
 		} else {
 			val := vVal1(symx.N("val", i))
+			if symx.Cfg("emptyvals", 0) == 1 {
+				val = vVal(symx.N("val", i), 1) // values of length 0..1
+			}
 			symx.Assert(t.Insert(vCtx, key, val) == nil, "Insert failed")
 			ref.set(key, val)
 		}
